@@ -215,11 +215,9 @@ fn exec_c(o: &Opts, doc: &serde_json::Value, dir: &Path) -> Result<Option<(Strin
             Ok(None)
         }
         _ => {
-            let mut argv = vec![file.to_string_lossy().to_string()];
-            if debug {
-                argv.push("--debug".into());
-            }
-            let io = if plan.is_empty() { Io::default() } else { Io { seed: None, plan: Some(plan.to_string()), log: None, stdout_file: None } };
+            let style: u8 = op.split("style=").nth(1).and_then(|s| s.parse().ok()).unwrap_or(0);
+            let (argv, cwd) = legc::simc_argv(&file, debug, style);
+            let io = if plan.is_empty() { Io { cwd, ..Io::default() } } else { Io { seed: None, plan: Some(plan.to_string()), log: None, stdout_file: None, cwd } };
             let r = child::run(&legc::simc_path(o), &argv, hs, &io).map_err(|e| e.to_string())?;
             Ok(legc::judge_simc(&reference, &r).map(|(c, d)| (c.to_string(), d)))
         }
